@@ -85,6 +85,15 @@ def falsify(ctx):
         cmps = (focus[i][1] if i < len(focus) else None) or common.cmps_choice(rng)
         job = common.gen_job(rng)
         job["preamble"] = None
+        if i >= len(focus) and i % 20 == 6:
+            # two class names that clash only after conversion, in a tree whose registry order is not depth-first (the deeper
+            # model is merged from two similar siblings): both layouts must name the classes alike
+            from .. import gen as _gen
+            from json_to_models.registry import ModelFieldsEquals
+            inputs = [("Root", [_gen.gen_name_clash(rng, skewed=True)])]
+            cmps = [ModelFieldsEquals()] if rng.random() < 0.5 else []
+            job["convertUnicode"] = True
+            job.pop("structureReuse", None)
         try:
             hit, tree = check_case(inputs, cmps, job, registry)
         except (ZeroDivisionError, stages.TooCostly):
